@@ -22,6 +22,7 @@ EXPLANATION = (
 ASSUMPTIONS = ["inputs are normalised (0 <= nanoseconds < 10^9), as the property states", "the monotonic clock is non-negative"]
 
 T = "tiny_std::time::"
+PASS_THROUGH = ("Result::<T, E>::ok", "Option::<T>::ok_or", "Result::<T, E>::map_err", "Option::<T>::ok_or_else")
 NANOS = 1_000_000_000
 
 
@@ -39,9 +40,38 @@ def is_nanos_only(e, prov):
     return mentions(e, prov, lambda z: z[0] == "call" and ((z[1] or "").endswith("TimeSpec::nanoseconds") or (z[1] or "").endswith("Duration::subsec_nanos"))) and not is_sec(e, prov)
 
 
+def clock_ids(prog, fn, seen=None, depth=0):
+    """clock ids read by `fn`, followed through this crate's helpers and closures"""
+    seen = set() if seen is None else seen
+    if fn["path"] in seen or depth > 6:
+        return set()
+    seen.add(fn["path"])
+    ctx = prog.ctx(fn)
+    ids = set()
+    for bb, t in ctx.cfg.calls():
+        for x in ctx.args(bb):
+            for y in walk_deep(x, ctx.prov):
+                if y[0] == "const" and y[2] and "ClockId::" in y[2]:
+                    ids.add(y[2].split("::")[-1])
+                if y[0] == "closure" or (y[0] == "agg" and isinstance(y[1], str) and y[1].startswith("closure")):
+                    pass
+        c = t.get("callee") or ""
+        if c.endswith("clock_get_monotonic_time"):
+            ids.add("CLOCK_MONOTONIC")
+        elif c.endswith("clock_get_real_time"):
+            ids.add("CLOCK_REALTIME")
+        elif c in prog.fns and c.startswith("tiny_std::"):
+            ids |= clock_ids(prog, prog.fns[c], seen, depth + 1)
+    for p2, f2 in prog.fns.items():
+        if p2.startswith(fn["path"] + "::{closure"):
+            ids |= clock_ids(prog, f2, seen, depth + 1)
+    return ids
+
+
 def run_one(ck, prog):
     checked = ["checked_add_dur", "checked_sub_dur", "sub_ts_checked_dur"]
     n_checked_ops = 0
+    n_conv = 0
     for nm in checked:
         fn = prog.fns.get(T + nm)
         if not ck.anchor("C19.1", nm, fn):
@@ -97,6 +127,32 @@ def run_one(ck, prog):
                     used_q = bool(none_edges) and not any(cfg.reachable_from(e.dst) & somes for e in none_edges)
                 ck.ob("C19.1", f"{nm}|checked-result-propagated|{t['callee'].split('::')[-1]}@{len([1 for x in range(n_checked_ops)])}", used_q or t["dst"]["l"] == 0, fn=fn["path"], site=ctx.site(bb),
                       detail="the Option of a checked seconds operation must be propagated with `?`")
+        # a seconds value that does not fit the target type is None, not some other number
+        for bb, t in cfg.calls(lambda t: (t.get("callee") or "").endswith(("::try_from", "::try_into"))):
+            a = ctx.args(bb)
+            if not a or not is_sec(a[0], ctx.prov):
+                continue
+            n_conv += 1
+
+            def is_conv(x, depth=0):
+                x = strip_casts(x)
+                if not isinstance(x, tuple) or not x or depth > 6:
+                    return False
+                if x[0] == "call" and x[3] == bb:
+                    return True
+                if x[0] == "call" and (x[1] or "").endswith(PASS_THROUGH) and x[2]:
+                    return is_conv(x[2][0], depth + 1)
+                if x[0] == "ref":
+                    return is_conv(x[2], depth + 1)
+                return False
+            ok = any(is_conv(ctx.args(b2)[0]) for b2, t2 in cfg.calls(lambda t2: (t2.get("callee") or "").endswith("Try::branch")))
+            if not ok:
+                bad_edges = [e for sb in cfg.live_blocks() if cfg.term(sb)["k"] == "switch" for e in cfg.succ[sb]
+                             for f in ctx.edge_facts(e) if f[0] == "variant" and f[2] in ("None", "Err") and is_conv(f[1])]
+                somes = {b["id"] for b in fn["blocks"] if any(st["k"] == "assign" and st["dst"]["l"] == 0 and not st["dst"].get("p") and st["rv"]["k"] == "agg" and st["rv"].get("variant") == "Some" for st in b["stmts"])}
+                ok = bool(bad_edges) and not any(cfg.reachable_from(e.dst) & somes for e in bad_edges)
+            ck.ob("C19.1", f"{nm}|unrepresentable-seconds-is-none|{t['callee'].split('::')[-1]}@{n_conv}", ok, fn=fn["path"], site=ctx.site(bb),
+                  detail="a seconds value that does not fit the converted type must end the computation with None (`.ok()?`), not be replaced by another value")
         # the seconds adjustment in the correction branch is exactly one
         if nm in ("checked_add_dur", "checked_sub_dur"):
             ones = [bb for bb, t in cfg.calls(lambda t: (t.get("callee") or "").endswith("u64>::checked_add")) if fold(ctx.args(bb)[1]) == 1 and mentions(ctx.args(bb)[0], ctx.prov, lambda z: z[0] == "call" and (z[1] or "").endswith("Duration::as_secs"))]
@@ -143,6 +199,7 @@ def run_one(ck, prog):
                         vals |= pv
             ck.ob("C19.2", f"{nm}|borrow-is-zero-or-one", vals == {0, 1}, fn=fn["path"], detail=f"the borrowed seconds must be 0 or exactly 1; found {sorted(str(v) for v in vals)}")
     ck.floor("C19.1", "checked operations on seconds", n_checked_ops, 6)
+    ck.floor("C19.1", "checked conversions of seconds", n_conv, 3)
 
     # ---- C19.3 normalised or None ---------------------------------------------------------------------------------------------
     f2 = prog.fns.get(T + "checked_sub_dur")
@@ -249,6 +306,7 @@ def run_one(ck, prog):
 
     # ---- C19.7 clock ids ------------------------------------------------------------------------------------------------------------------------
     gm = prog.fns.get(T + "get_monotonic_time")
+    n_now = 0
     if ck.anchor("C19.7", "get_monotonic_time", gm):
         ctx = prog.ctx(gm)
         ids = set()
@@ -263,6 +321,16 @@ def run_one(ck, prog):
             if c.endswith("clock_get_real_time"):
                 ids.add("CLOCK_REALTIME")
         ck.ob("C19.7", "monotonic-clock-id", ids == {"CLOCK_MONOTONIC"}, fn=gm["path"], detail=f"MonotonicInstant/Instant readings use clock ids {sorted(ids)}; must be CLOCK_MONOTONIC only")
+        # every reading handed out as a point on the monotonic timeline (Instant and MonotonicInstant convert into each other field by field)
+        # comes from that one clock, and the wall clock from CLOCK_REALTIME
+        for who, want in (("MonotonicInstant::now", {"CLOCK_MONOTONIC"}), ("Instant::now", {"CLOCK_MONOTONIC"}), ("SystemTime::now", {"CLOCK_REALTIME"})):
+            f0 = prog.fns.get(T + who)
+            if f0 is None:
+                continue
+            n_now += 1
+            got = clock_ids(prog, f0)
+            ck.ob("C19.7", f"{who}|reads-one-clock", got == want, fn=f0["path"], detail=f"{who} reads clock ids {sorted(got)}; must be exactly {sorted(want)} (the instant kinds convert into each other without translation)")
+        ck.floor("C19.7", "now() constructors", n_now, 3)
         nowf = prog.fns.get(T + "Instant::now")
         if nowf is not None:
             c2 = prog.ctx(nowf)
